@@ -35,9 +35,12 @@ BinShapes == Shapes(2) \cup (IF MaxRank >= 3 THEN {<<2, 1, 3>>, <<1, 2, 3>>, <<2
                        \cup (IF MaxRank >= 4 THEN {<<2, 1, 3, 1>>, <<1, 2, 1, 3>>} ELSE {})
 BinPairs(z) == {pr \in BinShapes \X BinShapes : BroadcastOK(pr[1], pr[2])}
 BinaryFamily(z) ==
-  {c \in {Cfg(p, f, pr[1], pr[2], <<>>, n, NoAx, FALSE, 0, 0, <<>>, "-", k, sc, Broadcast(pr[1], pr[2])) :
+  \* st: the quadrant of the complex plane the complex operands lie in (the generic points are rotated by i, -1, -i): rules with a branch
+  \* cut (the logarithm in d/dy x**y, a division by the base) are identities in the right half-plane that fail in the left one
+  {c \in {Cfg(p, f, pr[1], pr[2], <<>>, n, NoAx, FALSE, 0, 0, <<>>, q, k, sc, Broadcast(pr[1], pr[2])) :
             p \in BinFuncs, f \in {"func", "op", "rop"}, pr \in BinPairs(0), n \in {0, 1}, k \in Kinds,
-            sc \in {"array", "pyfloat", "zerod"}} :
+            sc \in {"array", "pyfloat", "zerod"}, q \in {"-", "q2", "q3", "q4"}} :
+     /\ (c.st # "-" => c.kind # "rr" /\ c.prim \in {"power", "divide", "multiply"} /\ Len(c.s) + Len(c.s2) <= 3)
      /\ (c.form # "func" => c.prim \in BinOps)
      /\ (c.kind # "rr" => c.prim \in BinComplex)
      \* scal describes how a rank-0 OTHER operand is passed (Python float or 0-d array)
@@ -83,9 +86,10 @@ UnaryFuncs == {"negative", "abs", "absolute", "fabs", "exp", "exp2", "expm1", "l
 UnaryComplex == {"negative", "abs", "absolute", "exp", "log", "sin", "cos", "tan", "sinh", "cosh", "tanh", "sqrt", "square",
                  "reciprocal", "real", "imag", "conj", "conjugate", "angle", "real_if_close"}
 UnaryFamily(z) ==
-  {c \in {Cfg(p, f, s, <<>>, <<>>, 0, NoAx, FALSE, 0, 0, <<>>, "-", k, sc, s) :
+  {c \in {Cfg(p, f, s, <<>>, <<>>, 0, NoAx, FALSE, 0, 0, <<>>, q, k, sc, s) :
             p \in UnaryFuncs, f \in {"func", "op", "method"}, s \in {<<>>, <<3>>, <<2, 3>>, <<1, 2>>}, k \in {"rr", "cc"} \cap Kinds,
-            sc \in {"array", "pyfloat", "zerod"}} :
+            sc \in {"array", "pyfloat", "zerod"}, q \in {"-", "q2", "q3", "q4"}} :
+     /\ (c.st # "-" => c.kind = "cc" /\ c.form = "func")      \* complex points in the other three quadrants
      /\ (c.form = "op" => c.prim \in {"negative", "abs"})
      /\ (c.form = "method" => c.prim \in {"conj", "conjugate"} /\ c.s # <<>>)
      /\ (c.kind = "cc" => c.prim \in UnaryComplex)
@@ -200,6 +204,11 @@ ContractFamily(z) ==
                   \* an operand broadcast against TWO ellipsis dimensions of the other one (trailing, leading and centre ellipsis)
                   <<"i...,i...->...", <<3>>, <<3, 3, 2>> >>, <<"i...,i...->...", <<2, 3, 2>>, <<2>> >>, <<"...i,...i->...", <<3>>, <<2, 3, 3>> >>,
                   <<"i...,i...->i...", <<2>>, <<2, 2, 3>> >>, <<"i...j,ij->...", <<2, 3, 2, 2>>, <<2, 2>> >>, <<"i...,...->i...", <<2>>, <<3, 2>> >>}}
+  \* a length-1 axis under a NAMED subscript is stretched by NumPy just like one under an ellipsis; and mixed real/complex operands
+  \cup {K1("einsum", f, e[2], e[3], n, 0, <<>>, e[1], k) : f \in {"func", "list"}, n \in {0, 1}, k \in Kinds,
+           e \in {<<"ij,ij->ij", <<1, 3>>, <<2, 3>> >>, <<"ij,ij->ij", <<2, 3>>, <<2, 1>> >>, <<"ij,jk->ik", <<2, 1>>, <<3, 2>> >>, <<"i,i->", <<1>>, <<3>> >>,
+                  <<"ij,ij->", <<2, 3>>, <<1, 3>> >>, <<"ij,kj->ik", <<2, 3>>, <<2, 1>> >>, <<"ij,jk->ik", <<2, 3>>, <<3, 2>> >>, <<"i,j->ij", <<3>>, <<2>> >>,
+                  <<"...ij,...jk->...ik", <<1, 2, 3>>, <<2, 3, 2>> >>, <<"i...,i->...", <<1, 2>>, <<3>> >>}}
   \cup {K1("einsum", "func", e[2], <<>>, 0, 0, <<>>, e[1], "rr") :
            e \in {<<"ii->i", <<3, 3>> >>, <<"ii", <<3, 3>> >>, <<"ij->j", <<2, 3>> >>, <<"ij->", <<2, 3>> >>, <<"ij->ji", <<2, 3>> >>, <<"i...->...", <<3, 2>> >>, <<"...i->i...", <<2, 3>> >>}}
 
